@@ -413,6 +413,13 @@ func (g *genCfg) genMap(kt, et *T, depth int) *V {
 			// comparable dynamic values only
 			dt := &T{K: "prim", P: []string{"PInt", "PString", "PAtom", "PBool", "PUint16"}[r.Intn(5)]}
 			key = &V{K: "any", T: dt, X: g.genVal(dt, depth+1, "any")}
+		} else if kt.K == "prim" && kt.P == "PError" {
+			// error keys: plain errors (a sentinel is a distinct key object with possibly the same text), sometimes nil
+			if r.Intn(6) == 0 {
+				key = &V{K: "errnil"}
+			} else {
+				key = &V{K: "err", S: g.smallBytes()}
+			}
 		} else {
 			key = g.genVal(kt, depth+1, "inner")
 		}
@@ -620,6 +627,9 @@ func (g *genCfg) boundaryCases() []Case {
 }
 
 func (g *genCfg) randomCase() Case {
+	if g.r.Intn(4) == 0 {
+		return g.flagCase()
+	}
 	var t *T
 	for {
 		t = g.genType(0, false)
